@@ -186,6 +186,10 @@ def campaign(ctx, cfg, layout, shard=0, nshards=1):
 
 def replay(ctx, path):
     rep = json.load(open(path))
+    if 'big' in rep:
+        import demcheck
+        vf.build_harness(ctx); d = demcheck.Demd(); o = d.ask(f"PKEBIG {rep['big']}"); d.close()
+        print(o.replace('_', ' ')[:600]); return 0 if o.split(' ')[-1] == '-' else 1
     vf.build_harness(ctx, (rep.get('config', 'default'),)); vf.build_coq(ctx)
     layout, _ = coq_layout(ctx)
     r = subprocess.run([vf.harness_bin('mutd', rep.get('config', 'default')), layout], input=f"TRY {rep['original_enc_hex']} {rep['usk_hex']}\nTRY {rep['mutated_enc_hex']} {rep['usk_hex']}\n", capture_output=True, text=True)
